@@ -43,6 +43,8 @@ def cases(tier, seed):
             kw.update(off_season=True, p_ffm=0.5, pre=(5, 40, 90))   # fallow days: the fallow management acts
         if i % 4 == 2:
             kw.update(off_season=False, seasons=(2, 3))               # season resets act
+            if i % 8 == 2:
+                kw.update(crops=[c for c in gen.usable_crops() if c in common.gdd_crops()], seasons=(3, 4), p_file=0.0)
         if i % 6 == 5:
             kw.update(crops=["Potato", "SugarBeet", "PotatoGDD", "SugarBeetGDD", "Tomato", "Wheat"], flags=False)
         sp = gen.config(rng, **kw)
@@ -51,6 +53,9 @@ def cases(tier, seed):
             sp["crop"]["kw"]["Determinant"] = 1
         if i % 12 == 3 and common.crop_catalogue()[sp["crop"]["name"]]["CalendarType"] == 1:
             sp["crop"]["kw"]["SwitchGDD"] = 1
+        if common.crop_catalogue()[sp["crop"]["name"]]["CalendarType"] == 2 and sp["weather"]["kind"] == "synth" and i % 2 == 0:
+            # warm and cool years: a later season may run up against the latest harvest date
+            sp["weather"].setdefault("params", {})["interannual"] = float(gen.pick(rng, [2.0, 3.5]))
         if i % 8 == 1:
             # in-season curve-number adjustment on (its fallow twin stays off)
             sp.setdefault("fm", {}).update(curve_number_adj=True, curve_number_adj_pct=float(gen.pick(rng, [-10, 10, 25])))
